@@ -501,7 +501,11 @@ inline void apply(World &w, const Op &op) {
       const bool mv = op.k == MOVE_CTOR_SELF;
       void *dst = S.other();
       vf::L().reset_counters();
-      win([&] { if (mv) ::new (dst) V(std::move(VV)); else ::new (dst) V(static_cast<const V &>(VV)); });
+      win([&] {
+        typename V::allocator_type al;
+        if (op.a) { if (mv) ::new (dst) V(std::move(VV), al); else ::new (dst) V(static_cast<const V &>(VV), al); }
+        else { if (mv) ::new (dst) V(std::move(VV)); else ::new (dst) V(static_cast<const V &>(VV)); }
+      });
       if (faulted()) break;
       if (W().exc) { vf::fail("C01", "%s threw", nm); break; }
       V &nv = *std::launder(reinterpret_cast<V *>(dst));
